@@ -46,10 +46,11 @@ Definition run_c03 (cases : list (N * c03case)) : list (N * N) :=
   filter (fun p => negb (N.eqb (snd p) 0)) (map (fun p => (fst p, check_c03 (snd p))) cases).
 
 (* state-machine histories: every request decorated, metadata = wire, nonces pairwise distinct *)
-Require Export Verif.Run.EvalSM Verif.Model.Monitors Verif.Proofs.Monitor.
+Require Export Verif.Run.EvalSM Verif.Model.Monitors Verif.Model.Monitors3 Verif.Proofs.Monitor.
 Definition proj_c03 (a : action) : bool := match a with AHttp _ _ | AInstaller (ICreatePlan _ _ _ _) _ => true | _ => false end.
 Definition mon_c03 (c : smcase) (t : list action) : bool :=
-  match c with KSm _ _ url cup _ _ _ _ => accepts step3 {| url3 := url; kid3 := cup; seen3 := [] |} t end.
+  match c with KSm _ _ url cup _ _ _ _ =>
+    accepts step3 {| url3 := url; kid3 := cup; seen3 := [] |} t && accepts step3a (init3a url cup) t end.
 
 Inductive c03any := K03 (c : c03case) | K03Sm (c : smcase).
 Definition check_c03any (c : c03any) : N :=
